@@ -523,8 +523,16 @@ def _is_reflective_get(e) -> bool:
         isinstance(e, ast.Call) and isinstance(e.func, ast.Name) and e.func.id == "getattr")
 
 
+def _series_test(t) -> Optional[str]:
+    """isinstance(<name>, <...Series...>) -> name"""
+    if isinstance(t, ast.Call) and isinstance(t.func, ast.Name) and t.func.id == "isinstance" and len(t.args) == 2 and \
+            isinstance(t.args[0], ast.Name) and "Series" in unparse(t.args[1]):
+        return t.args[0].id
+    return None
+
+
 def _pjoin(a: str, b: str) -> str:
-    for k in ("foreign", "caller", "stripped"):
+    for k in ("unknown", "foreign", "caller", "stripped"):
         if k in (a, b):
             return k
     return "other"
@@ -540,12 +548,17 @@ def prov(e, env: Dict[str, str]) -> str:
         return "foreign"
     if isinstance(e, ast.IfExp):
         a, b = prov(e.body, env), prov(e.orelse, env)
+        nm = _series_test(e.test)
+        if nm and a == "stripped" and isinstance(e.orelse, ast.Name) and e.orelse.id == nm:
+            return "stripped"       # `x.to_numpy() if isinstance(x, pd.Series) else x`: what is left is not a Series
         return _pjoin(a, b)
     if isinstance(e, ast.Call):
         # wrappers such as pd.Series(x) keep the index
-        for a in e.args:
-            if prov(a, env) == "foreign":
-                return "foreign"
+        ps = [prov(a, env) for a in e.args]
+        if "foreign" in ps:
+            return "foreign"
+        if isinstance(e.func, ast.Name) and e.func.id.startswith("_") and ("caller" in ps or "unknown" in ps):
+            return "unknown"        # a helper of the repository that the normal form could not expand
     if isinstance(e, (ast.BinOp,)):
         if "foreign" in (prov(e.left, env), prov(e.right, env)):
             return "foreign"
@@ -554,7 +567,7 @@ def prov(e, env: Dict[str, str]) -> str:
 
 def rule_r8(ctx) -> List[R.Inst]:
     M = ctx.M
-    fn = M.fn(CAST)
+    fn = M.nfn(CAST)        # private helpers (also a singledispatch family, merged at load) expanded in place
     file = M.mods[fn.mod].rel
     found = []
 
@@ -564,13 +577,14 @@ def rule_r8(ctx) -> List[R.Inst]:
                 env[s.targets[0].id] = prov(s.value, env)
             elif isinstance(s, ast.If):
                 e1, e2 = dict(env), dict(env)
+                t = s.test
+                narrowed = _series_test(t)
+                if narrowed and s.orelse and e2.get(narrowed) in ("foreign", "caller"):
+                    e2[narrowed] = "stripped"     # on the else side the value is not a Series: it carries no row labels
                 run(s.body, e1)
                 run(s.orelse, e2)
-                t = s.test
-                narrowed = None
-                if isinstance(t, ast.Call) and isinstance(t.func, ast.Name) and t.func.id == "isinstance" and \
-                        isinstance(t.args[0], ast.Name) and "Series" in unparse(t.args[1]):
-                    narrowed = t.args[0].id
+                if narrowed and narrowed not in {x.id for b_ in s.orelse for x in ast.walk(b_) if isinstance(x, ast.Name) and isinstance(x.ctx, ast.Store)}:
+                    e2[narrowed] = env.get(narrowed, "other")     # the narrowing ends with the branch
                 for k in set(e1) | set(e2):
                     a, b = e1.get(k, "other"), e2.get(k, "other")
                     if k == narrowed and a == "stripped" and b in ("foreign", "caller"):
@@ -634,6 +648,9 @@ def rule_r8(ctx) -> List[R.Inst]:
             else:
                 insts.append(R.ok("C08.R8", "ConvertBase.cast.store", file, n.lineno,
                                   idiom=f"caller values stored as passed; all {n_uses} call sites pass constants or label-free values"))
+        elif p == "unknown":
+            insts.append(R.undec("C08.R8", "ConvertBase.cast.store", file, n.lineno,
+                                 f"the stored value goes through a helper that could not be expanded: {unparse(n)[:120]}"))
         elif p == "foreign":
             insts.append(R.viol("C08.R8", "ConvertBase.cast.store", file, n.lineno,
                                 "a column of the caller's frame (its own row labels) is stored into the 0..n-1 indexed buffer: "
